@@ -289,13 +289,10 @@ def known_finding_for(universe, steps, k, runner):
     for st in window:
         if seen.setdefault(st["mods"], st["loaded"]) != st["loaded"]:
             return "C14-F2"
-    # F3 (what remains after 7df03d4): an unbuildable class has been evicted from the
-    # published index by an earlier by-fields lookup / local_names_match, and the
-    # failing call reads the index by qualified name; or the failing call is itself a
-    # direct local_names_match on an unbuildable class (ValueError from list.remove)
+    # F3 (what remains): an unbuildable class has been evicted from the published index
+    # by an earlier by-fields lookup / local_names_match, and the failing call reads the
+    # index by qualified name
     last = window[-1]["op"]
-    if last["k"] == "local_names_match" and not _buildable(universe, last["c"]):
-        return "C14-F3"
     reads_by_name = last["k"] in ("find_types", "find_type", "find_subclass", "xml_parse", "json_parse") or (
         last["k"] == "fetch" and bool(last.get("xsi")))
     if reads_by_name:
@@ -305,14 +302,6 @@ def known_finding_for(universe, steps, k, runner):
                 return "C14-F3"
             if o["k"] == "local_names_match" and not _buildable(universe, o["c"]):
                 return "C14-F3"
-    # F1: a class without Meta.namespace requested under two parent namespaces
-    log = runner(window)
-    first = {}
-    for c, pns in log:
-        if c is None or c < 0 or c >= len(universe) or universe[c]["has_ns"]:
-            continue
-        if first.setdefault(c, pns) != pns:
-            return "C14-F1"
     return None
 
 
@@ -524,12 +513,7 @@ def check_rec(a):
 
 
 def covered_rec(a, msg):
-    k = int(msg.split("#")[1].split(" ")[0].rstrip(":"))
-    # F4: the divergence is in the instance attribute and an earlier call that
-    # recorded into the instance declared a prefix
-    if " attr: " in msg and any(c["arg"] is None and c["decls"] for c in a["calls"][:k]):
-        return "C14-F4"
-    return None
+    return None  # no listed finding in this area (C14-F4 is repaired)
 
 
 def impl_doc_history(a):
@@ -562,15 +546,6 @@ ORACLES = [
 # ======================================================================
 # known findings: replayed on the real code
 # ======================================================================
-def finding_f1():
-    a = {"universe": G.U_WITNESS, "steps": G.fixed_world(G.U_WITNESS, [
-        {"k": "xml_render", "toks": G.DOC_PA}, {"k": "xml_render", "toks": G.DOC_PB}])}
-    res, _ = run_docs(a["universe"], a["steps"])
-    o, f = res[1]
-    still = o != f and "urn:a" in o.get("xml", "") and "urn:a" not in f.get("xml", "")
-    return still, f"shared={o} fresh={f}"
-
-
 def finding_f2():
     steps = [{**G.W(1, 0), "op": G.op_q("find_type", "PA")}, {**G.W(3, 0), "op": G.op_q("find_type", "{urn:a}PA")}]
     res = L.run_steps(G.U_WITNESS, steps)
@@ -579,36 +554,35 @@ def finding_f2():
 
 
 def finding_f3():
-    """What remains after 7df03d4: the by-fields lookup is repaired (asserted
-    here too), but the evicted class is gone from find_types, a repeated direct
-    local_names_match raises ValueError, and find_type switches to a namesake."""
+    """What remains (by design): by-fields lookups and local_names_match are history
+    independent (asserted here too), but the evicted class is gone from find_types
+    and find_type switches to a namesake."""
     steps = G.fixed_world(G.U_BAD, [G.op_fields(["x"]), G.op_fields(["x"]), G.op_q("find_types", "{urn:a}T"),
                                     G.op_lnm(["x"], 0)])
     res = L.run_steps(G.U_BAD, steps)
     repaired = res[0]["shared"] == res[0]["fresh"] == res[1]["shared"] == res[1]["fresh"]
-    residual = res[2]["shared"] != res[2]["fresh"] and res[3]["shared"] == {"err": "ValueError"} and res[3]["fresh"] == {"bool": False}
+    repaired = repaired and res[3]["shared"] == res[3]["fresh"] == {"bool": False}
+    residual = res[2]["shared"] != res[2]["fresh"]
     steps2 = G.fixed_world(G.U_BAD2, [G.op_fields(["x"]), G.op_q("find_type", "{urn:a}T"), G.op_fetch(0, None, "{urn:a}T")])
     res2 = L.run_steps(G.U_BAD2, steps2)
     switch = res2[1]["shared"] == {"type": 0} and res2[1]["fresh"] == {"type": 1}
     return (repaired and residual and switch), json.dumps([[r["shared"], r["fresh"]] for r in res + res2])[:400]
 
 
-def finding_f4():
-    msg = check_rec({"handler": "native", "calls": [{"decls": [["p", "urn:a"]], "arg": None}, {"decls": [["p", "urn:b"]], "arg": None}]})
-    return bool(msg and " attr: " in msg), str(msg)
-
-
-FINDINGS = {"C14-F1": finding_f1, "C14-F2": finding_f2, "C14-F3": finding_f3, "C14-F4": finding_f4}
+FINDINGS = {"C14-F2": finding_f2, "C14-F3": finding_f3}
 
 LEVEL_TEXT = (
     "Lean proof by invariant + refinement over all finite histories: every call on a shared XmlContext "
     "(build, fetch, find_type(s), find_subclass, find_type_by_fields, local_names_match, build_xsi_cache, reset, "
     "name-level serialisation; failing calls included; classes and modules may be loaded in between) returns the "
-    "cache-free specification, hence what a fresh context returns, under three decidable side conditions "
-    "(history_independent_partial, shared_refines_spec, all_calls_equal_fresh, history_independent_declared); the "
-    "full statement is refuted by four proved counterexamples that are replayed on the real code (known findings "
-    "C14-F1..F4); memo dict, lru_cache and the parser's prefix recorder are proved transparent for all call "
-    "sequences. The model is tied to /repo by a differential check of shared-vs-fresh-vs-model on bounded-exhaustive "
+    "cache-free specification, hence what a fresh context returns: with no hypothesis at all for the calls that do "
+    "not consult the type index (metadata_history_independent, build_history_independent: the cache is keyed by "
+    "(class, parent_ns)), under `len(sys.modules)` being faithful for by-fields lookups "
+    "(history_independent_evicting) and under two decidable side conditions for lookups by name "
+    "(history_independent_partial, shared_refines_spec, all_calls_equal_fresh, history_independent_fixed_world); the "
+    "full statement is refuted by two proved counterexamples that are replayed on the real code (known findings "
+    "C14-F2, C14-F3, both by design); memo dict, lru_cache and the parser's prefix recorder (one map per document) "
+    "are proved transparent for all call sequences. The model is tied to /repo by a differential check of shared-vs-fresh-vs-model on bounded-exhaustive "
     "and random op sequences over real dataclasses, including the cache and index contents after every call."
 )
 LEVEL_NOTE = (
